@@ -6,11 +6,10 @@ import (
 	"go/types"
 
 	"golang.org/x/tools/go/cfg"
-	"golang.org/x/tools/go/types/typeutil"
 )
 
 func calleeFunc(info *types.Info, call *ast.CallExpr) (*types.Func, bool) {
-	fn, ok := typeutil.Callee(info, call).(*types.Func)
+	fn, ok := Callee(info, call).(*types.Func)
 	return fn, ok
 }
 
@@ -18,9 +17,9 @@ func calleeFunc(info *types.Info, call *ast.CallExpr) (*types.Func, bool) {
 type Graph struct {
 	// NonNilError, when set, tells whether a function always returns a non-nil error (an error constructor).
 	NonNilError func(*types.Func) bool
-	U    FuncUnit
-	Info *types.Info
-	CFG  *cfg.CFG
+	U           FuncUnit
+	Info        *types.Info
+	CFG         *cfg.CFG
 	// switchTag maps each case expression of a tagged switch to the switch's tag: go/cfg emits the bare case expression as
 	// the condition node, which stands for `tag == expr`
 	switchTag map[ast.Expr]ast.Expr
